@@ -230,6 +230,11 @@ def jobs(tier, seed):
         for ej in E.make_jobs(tier, seed, prefix_sets=[ps], sib='one' if tier == 'quick' else 'min', per_signature=False):
             if E._row_is_mmx(ej[1], ej[2]):
                 out.append(('sse', ej, tier))
+    # x87 part: memory forms of the escape opcodes d8..df (values are modelled by uninterpreted operators: operand inclusion)
+    for ps in ((), (0x67,)) if tier == 'quick' else ((), (0x67,), (0x66,), (0x2e,)):
+        for ej in E.make_jobs(tier, seed, prefix_sets=[ps], sib='one' if tier == 'quick' else 'min', per_signature=False):
+            if (ej[1] and 0xD8 <= ej[1][0] <= 0xDF) or (not ej[1] and ej[2] and all(0xD8 <= b <= 0xDF for b in ej[2])):
+                out.append(('x87', ej, tier))
     return out
 
 
@@ -359,11 +364,106 @@ def run_sse(job, res, tier):
             res['samples'].append({'row': title, 'paths': len(rs), 'verdict': 'source operands / address registers read and destinations written on %d path(s)' % ok})
 
 
+# x87 instructions with a memory operand, by escape byte and ModRM reg field (SDM vol. 2, table A-7 ff.): 'r' = the operand is
+# read, 'w' = written; (class, st0 is read)
+X87_MEM = {
+    0xD8: {k: ('r', True) for k in range(8)},
+    0xD9: {0: ('r', False), 2: ('w', True), 3: ('w', True), 4: ('r', False), 5: ('r', False), 6: ('w', False), 7: ('w', False)},
+    0xDA: {k: ('r', True) for k in range(8)},
+    0xDB: {0: ('r', False), 1: ('w', True), 2: ('w', True), 3: ('w', True), 5: ('r', False), 7: ('w', True)},
+    0xDC: {k: ('r', True) for k in range(8)},
+    0xDD: {0: ('r', False), 1: ('w', True), 2: ('w', True), 3: ('w', True), 4: ('r', False), 6: ('w', False), 7: ('w', False)},
+    0xDE: {k: ('r', True) for k in range(8)},
+    0xDF: {0: ('r', False), 1: ('w', True), 2: ('w', True), 3: ('w', True), 4: ('r', False), 5: ('r', False), 6: ('w', True), 7: ('w', True)},
+}
+
+
+def x87_missing(i, affs, esc, reg):
+    """operand-inclusion obligations of an x87 instruction with a memory operand: the cell is read (loads, arithmetic,
+    compares, environment loads) or written (stores), the registers of its address are read, st0 is read where the
+    operation consumes it.  Only the address is compared (the lifter's cell may be wider or narrower: not judged here)."""
+    out = []
+    cls = X87_MEM.get(esc, {}).get(reg)
+    mems = [a for a in i.arg_expr if isinstance(a, X.ExprMem)]
+    if cls is None or len(mems) != 1:
+        return out
+    m = mems[0]
+    R, W = sse_sets(i, affs)
+    rn = set(x.name for x in R if isinstance(x, X.ExprId))
+
+    def same_cell(x):
+        return isinstance(x, X.ExprMem) and x.arg == m.arg      # the selector is not compared (fnstenv names its cells without one)
+    if cls[0] == 'r' and not any(same_cell(x) for x in R):
+        out.append(('x87-omitted-read:memory-operand', 'the memory operand %s is read by the processor but no cell at that address is in the read set' % m))
+    if cls[0] == 'w' and not any(same_cell(x) for x in W):
+        out.append(('x87-omitted-write:memory-operand', 'the memory operand %s is written by the processor but no cell at that address is in the write set' % m))
+    for n in set(x.name for x in m.arg.get_r(mem_read=True) if isinstance(x, X.ExprId)) - rn:
+        out.append(('x87-omitted-read:address-register', 'register %s of the operand address is not in the read set' % n))
+    if cls[1] and 'float_st0' not in rn:
+        out.append(('x87-omitted-read:st0', 'st(0) is consumed by the operation but float_st0 is not in the read set'))
+    return out
+
+
+def run_x87(job, res, tier):
+    from vf.checks import c11
+    ejob = job[1]
+    prefixes, opc, last, sibmode, rowname = ejob
+    title = 'x87 rw %s|%s%s %s' % (' '.join('%02x' % p for p in prefixes), ' '.join('%02x' % b for b in opc), '' if last is None else ' {%02x..}' % last[0], rowname)
+    seen = set()
+
+    def on_path(eng, d):
+        if d.kind != 'ok':
+            return ('SKIP',)
+        i = d.instr
+        wit = E.witness_bytes(eng, d)
+        k = len(prefixes)
+        if len(wit) < k + 2 or not 0xD8 <= wit[k] <= 0xDF or wit[k + 1] >= 0xC0:
+            return ('SKIP',)
+        c11.reset_singletons()
+        try:
+            affs = EH.get_instr_expr(i, X.ExprInt(M.uint32(i.l)), [])
+        except PathAbort:
+            raise
+        except Exception:
+            return ('SKIP',)           # not supported by the lifter / C11's subject
+        miss = x87_missing(i, affs, wit[k], (wit[k + 1] >> 3) & 7)
+        if miss:
+            return ('BAD', i.m.name, miss, wit[:i.l])
+        return ('OK',)
+    eng, rs = E.explore(ejob, on_path, max_paths=20000, max_seconds=300)
+    res['paths'] += eng.stats['paths']
+    res['queries'] += eng.stats['queries']
+    res['solver_s'] += eng.stats['solver_s']
+    for u in eng.unexplored:
+        res['inconclusive'].append('%s: %s' % (title, u))
+    ok = 0
+    for r in rs:
+        if r[0] == 'OK':
+            ok += 1
+            res['obligations'] += 1
+            res['proved'] += 1
+        elif r[0] == 'BAD':
+            res['obligations'] += 1
+            for key, desc in r[2]:
+                kk = '%s:%s' % (key, r[1])
+                if kk in seen:
+                    continue
+                seen.add(kk)
+                res['candidates'].append({'key': kk, 'desc': '%s: %s e.g. %s' % (r[1], desc, ' '.join('%02x' % b for b in r[3])),
+                                          'data': {'bytes': list(r[3]), 'what': key, 'x87': True, 'esc': r[3][len(prefixes)], 'nprefix': len(prefixes)}})
+    if ok:
+        res['nontrivial'] += 1
+        if len(res['samples']) < 1:
+            res['samples'].append({'row': title, 'paths': len(rs), 'verdict': 'memory operand, address registers and st0 in the read / write set on %d path(s)' % ok})
+
+
 def run_job(job):
     res = {'paths': 0, 'queries': 0, 'solver_s': 0.0, 'obligations': 0, 'proved': 0, 'candidates': [],
            'inconclusive': [], 'samples': [], 'programs': 1, 'nontrivial': 0}
     if job[0] == 'sse':
         run_sse(job, res, job[2])
+    elif job[0] == 'x87':
+        run_x87(job, res, job[2])
     else:
         run_rw(job, res, job[2])
     return res
@@ -494,7 +594,11 @@ i = x86mnemo.dis(bytes(D['bytes']) + b'\x90' * 4)
 affs = EH.get_instr_expr(i, X.ExprInt(M.uint32(i.l)), [])
 R, W = c08.sse_sets(i, affs)
 print(bytes(D['bytes']).hex(), str(i).strip()); print('  read set :', sorted(str(x) for x in R)); print('  write set:', sorted(str(x) for x in W))
-miss = c08.sse_missing(i, affs)
+if D.get('x87'):
+    b = D['bytes']; k = D['nprefix']
+    miss = c08.x87_missing(i, affs, D['esc'], (b[k + 1] >> 3) & 7)
+else:
+    miss = c08.sse_missing(i, affs)
 for k, d in miss: print('  ', k, ':', d)
 bad = any(k == D['what'] for k, d in miss)
 print('C08 replay:', 'VIOLATED' if bad else 'holds')
@@ -503,7 +607,7 @@ sys.exit(1 if bad else 0)
 
 
 def make_replay(cnd):
-    if cnd['data'].get('sse'):
+    if cnd['data'].get('sse') or cnd['data'].get('x87'):
         return REPLAY_SSE % {'data': cnd['data']}
     return REPLAY % {'data': cnd['data']}
 
